@@ -10,7 +10,7 @@ and the visited states.  The Jacobian relation is an in-run invariant on the vis
 from .core import Result, Violation, HarnessError, EventLog, bump, rng_for, sha_bytes, settle
 
 PROP = 'C17'
-TIMEOUT = 300
+TIMEOUT = 900
 BATCHES = {
     'quick': [('N', 900)],
     'thorough': [('N', 60000)],
